@@ -67,6 +67,20 @@ func main() {
 	case "check":
 		os.Exit(cmdCheck(os.Args[2:]))
 	case "list":
+		if len(os.Args) > 2 && os.Args[2] == "--json" {
+			var out []map[string]any
+			for _, c := range Checks {
+				var hs []string
+				for _, h := range c.Harnesses {
+					hs = append(hs, h.Func)
+				}
+				out = append(out, map[string]any{"property_id": c.ID, "title": c.Title, "text": c.Claim, "note": c.Trusted, "harnesses": hs,
+					"assumptions": c.Assumptions, "stubs": c.Stubs, "outside": c.Outside})
+			}
+			b, _ := json.MarshalIndent(out, "", " ")
+			fmt.Println(string(b))
+			break
+		}
 		for _, c := range Checks {
 			fmt.Println(c.ID, c.Title)
 		}
